@@ -387,6 +387,20 @@ func elemsEq(a, b []value) value {
 			}
 		}
 		if !same {
+			// a concrete mismatch in the common prefix before the first lazy piece decides it
+			for i := 0; i < len(a) && i < len(b); i++ {
+				if _, ok := a[i].(lazyDec); ok {
+					break
+				}
+				if _, ok := b[i].(lazyDec); ok {
+					break
+				}
+				ca, ok1 := a[i].(uint8)
+				cb, ok2 := b[i].(uint8)
+				if ok1 && ok2 && ca != cb {
+					return false
+				}
+			}
 			return elemsEq(forceBytes(a), forceBytes(b))
 		}
 		acc := tTrue
